@@ -42,6 +42,14 @@ CHECKS.update({
          "Every ordered (receiver, sender) pair x ~30 fault kinds on both DKG rounds (both proof components, proof for every other identifier / other run, every commitment coefficient, lengths t-1/t+1 with and without valid proof, own-identifier filing in three forms, missing/surplus, misrouted / cross-run / cross-sender shares, consistently restricted or extended maps). The first consuming step must be Err, earlier steps must equal the honest run, culprits must be a subset of {sender} and exactly {sender} for proof and share faults.",
          "'Attributable' is read as 'the error carries a culprit' (DESIGN 3.8 rule 4).", "DESIGN 4 C08"),
 })
+CHECKS.update({
+ "C05": ("model_checking", "explicit-state exploration of two concurrent signing sessions on the real code against a reference acceptance predicate",
+         "Two concurrent sessions A,B of the same signers: every A/B filling of every commitment slot x message (packages), every Sign(i,P,nonces_X), every VerifyShare(P,i,z) for z in the universe of all shares signer i can be made to produce, every Aggregate(P,zvec) over the full product of universes; acceptance must equal 'produced for exactly this package'. Plus every single-field substitution and the signer-side refusals incl. slot permutations and identity commitments in every slot.",
+         "Two sessions, |S|<=3; a permutation of honest shares among slots leaves the sum valid and is not asserted to fail (C04 allows it).", "DESIGN 4 C05"),
+ "C09": ("model_checking", "explicit exploration of all delivery histories of two concurrent honest DKG runs on the real part2/part3 against a reference predicate",
+         "n in {3,4}, every (t_A,t_B): per participant and own run every {A,B,absent} assignment of every round-one slot and, for each accepted one, every ({A,B} x addressee | absent) assignment of every round-two slot; part2/part3 acceptance must equal the independently computed predicate, accepted histories must yield internally consistent key material; for every common round-one set all participants complete with identical public packages and every t-subset signs.",
+         "Honest senders only (malformed contributions are C08); the decomposition over participants is checked on the code in every run.", "DESIGN 4 C09"),
+})
 NOT_APPLICABLE = {}
 
 def main():
